@@ -4,6 +4,8 @@ CONSTANTS NC = 2
   MaxPS = 1
   NoiseKinds <- MCNoiseFew
   ErrKinds <- MCErrFew
+  Segs <- MCSegOwn
+  MaxAcc = 3
   D = 0
 SPECIFICATION FairSpec
 PROPERTY DownEventually
